@@ -117,6 +117,18 @@ CLAIMS = {
         text='Only paths produced by the include search or given by the caller reach open/exists/getsize; os.getcwd() only on the source-string branch; the recursive read passes the resolved path, include=True and unchanged include_dirs; the directory of the including file is searched at every depth; '
              'included lines are spliced at the include line by extend, others appended once in order; the CLI makes input and -i directories absolute. Independence from the working directory is a property of which values can flow to filesystem calls, for all include trees.',
         note='Not decided: equality of the resulting binaries (follows from splice order and C16 purity, not re-proved); which directory wins for duplicate names. Trusted: CPython ast, kind rules of bbverif/prov.py.'),
+    'C11': dict(
+        category='other', design='DESIGN.md §4 C11',
+        technique='must-pass-through of the exact-int test on all return paths of Arithmetic.eval; sequential-evaluation and alias-substitution rules from path summaries; register-kinded fields derived from encoder summaries; str|int|Expr kind dataflow',
+        text='Decided in part: every evaluated result is returned only after type(result) == int (or is ord of a character literal) with builtins pinned off; constants are evaluated in order over the constants so far and stored under their own name, shadowing refused; '
+             'aliases are resolved before every consumer, in exactly the register-kinded fields, by a positional rebuild; a register field moved into an immediate under -c keeps representation and environment; constants inside %hi/%lo/%position reach the same evaluator.',
+        note='Not decided: the arithmetic itself (delegated to Python eval; trusted) and what the regex tokenizer does to quotes, #, commas and parentheses inside a token (character literals) - value semantics of library string processing on particular inputs.'),
+    'C13': dict(
+        category='other', design='DESIGN.md §4 C13',
+        technique='table check of REGISTERS vs. ABI names; token-provenance dataflow for imm(reg) vs reg, imm; regex-AST queries (re._parser) for separator and comment patterns; def-use chain order in lex_tokens',
+        text='Decided in part: all documented register spellings map to the architectural number; both base+offset spellings reach the same constructor parameters by role for every load/store/jalr; the separator pattern consumes exactly runs of whitespace and commas; the comment pattern is removed first and the text stripped before splitting; '
+             'blank lines are skipped without disturbing numbering.',
+        note='Not decided: equality of whole binaries under arbitrary combinations of rewrites (interaction of string/error lexing with indentation and comments; integer forms only eval or only int(., 0) accepts). A lexer rewritten beyond the def-use rules yields ANALYSIS-ERROR, not a violation.'),
 }
 
 NOT_YET = 'check not built yet (framework under construction)'
